@@ -191,3 +191,47 @@ def overload_implementations(x: int, how: int) -> int:
     if runs.count("fast") != 1:
         return 0
     return 2
+
+
+
+@harness("C02", lemma="views-and-registrations", stubs=("S1", "noS7"), cubes={"how": [0, 1, 2]}, example=dict(how=0, a=1, x=2), timeout=300,
+         bounds="(0) a dataset consumed directly AND through a with_options view that changes nothing it reads, in one evaluation; "
+                "(1) the same through a with_default_options view across two evaluations; (2) evaluate, register an overload for "
+                "ANOTHER dispatch value, evaluate again. Real __repr__ of every node (stub S7 off)",
+         what="the stored value is found again whatever object (the dataset or a view sharing its cache) asks for the same assignment, "
+              "and registering an unrelated overload does not forget it: the body runs once")
+def views_and_registrations(how: int, a: int, x: int) -> int:
+    from labrea import Value
+
+    runs = []
+    with untraced():
+        def base(v=Option("A")):
+            runs.append("base")
+            return ("base", v)
+
+        d = dataset(base, dispatch="D")
+        view = d.with_options({"UNUSED": x}) if how == 0 else d.with_default_options({"UNUSED": x})
+
+        def both(p=d, q=view):
+            return (p, q)
+
+        consumer = dataset(both)
+    o = {"A": a}
+    with quiet():
+        if how == 0:
+            r = outcome(lambda: consumer(o))
+            ok = r[0] == "ok" and same(r[1], (("base", a), ("base", a)))
+        elif how == 1:
+            r1, r2 = outcome(lambda: d(o)), outcome(lambda: view(o))
+            ok = r1[0] == "ok" and r2[0] == "ok" and same(r1[1], ("base", a)) and same(r2[1], ("base", a))
+        else:
+            r1 = outcome(lambda: d(o))
+            d.register("elsewhere", Value(0))
+            r2 = outcome(lambda: d(o))
+            ok = r1[0] == "ok" and r2[0] == "ok" and same(r2[1], ("base", a))
+    note("how", how, "options", o, "body runs", runs)
+    if not ok:
+        return 0
+    if runs != ["base"]:
+        return 0
+    return 2
